@@ -580,6 +580,9 @@ recompute_factor(cholmod_sparse *A, cholmod_factor *L, long *iPerm,
 
 		if ( Lp[Lnext[Lrows[i]]] - Lp[Lrows[i]] < nz ) {
 			cholmod_l_reallocate_column(Lrows[i], nz, L, c);
+			/* the reallocation may have moved L->i and L->x */
+			Li = (long*)(L->i);
+			Lx = (double*)(L->x);
 #if 0
 			printf("L->nz[%ld] <= %ld, L_F->nz[%d] = %ld\n", 
 		    	    Lrows[i], Lp[Lnext[Lrows[i]]] - Lp[Lrows[i]],
